@@ -2,7 +2,7 @@
     Property theorems only.  ISIMIP step 6: hand model Model/Isimip.v over the REGENERATED masks (K6);
     QDM / CDFt SSR / LinearScaling / DeltaChange: definitions REGENERATED from the source (GenScalars). *)
 From Coq Require Import QArith ZArith List Bool String.
-From IV Require Import QL NP Dist Ecdf GenUtils GenScalars GenPrecip GenIsimip Isimip C16_compose C10_proofs C10_precip XQ ConfigBase GenConfig C10_isimip_table SDM SDM_proofs.
+From IV Require Import QL NP Dist Ecdf GenUtils GenScalars GenPrecip GenIsimip Isimip C16_compose C10_proofs C10_precip XQ ConfigBase GenConfig C10_isimip_table SDM SDM_proofs IsimipStep5 IsimipStep5_proofs.
 Import ListNotations.
 Open Scope Q_scope.
 
@@ -116,3 +116,14 @@ Theorem C10_sdm_relative_nonneg : forall (P : Type) (D : dist P), (forall p q, 0
   forall pr_thr cdf_thr obs hist fut out, sdm_relative D pr_thr cdf_thr obs hist fut = Some out -> Forall (fun v => 0 <= v) out.
 Proof. exact @sdm_relative_nonneg. Qed.
 Print Assumptions C10_sdm_relative_nonneg.
+
+(** ISIMIP step 5 (hand model Model/IsimipStep5.v, correspondence K17): with bounded trend preservation the pseudo
+    future observations lie inside [lower bound, upper bound]; with the multiplicative method non-negative
+    observations stay non-negative (the change factor is clipped to [1/100, 100]) *)
+Theorem C10_step5_bounded_in_bounds : forall em im a b oh ch cf, a <= b -> Forall (fun v => a <= v /\ v <= b) (step5 TBounded em im a b oh ch cf).
+Proof. exact step5_bounded_in_bounds. Qed.
+Print Assumptions C10_step5_bounded_in_bounds.
+
+Theorem C10_step5_multiplicative_nonneg : forall em im a b oh ch cf, Forall (fun v => 0 <= v) oh -> Forall (fun v => 0 <= v) (step5 TMultiplicative em im a b oh ch cf).
+Proof. exact step5_multiplicative_nonneg. Qed.
+Print Assumptions C10_step5_multiplicative_nonneg.
